@@ -399,7 +399,14 @@ class float_converters(number_converters_base):
         return float_from_words(words=words, path=path)
 
     def _value_as_str(self, value):
-        return "%.10g" % value
+        try:
+            return "%.10g" % value
+        except OverflowError:
+            # an integer (bound) too large for a float
+            try:
+                return str(value)
+            except ValueError:
+                return hex(value)
 
 
 class numbers_converters_base(_check_value_base):
@@ -564,7 +571,14 @@ class floats_converters(numbers_converters_base):
         return float_from_number(number=number, words=words, path=path)
 
     def _value_as_str(self, value):
-        return "%.10g" % value
+        try:
+            return "%.10g" % value
+        except OverflowError:
+            # an integer (bound) too large for a float
+            try:
+                return str(value)
+            except ValueError:
+                return hex(value)
 
 
 class choice_converters:
